@@ -5,8 +5,8 @@ from . import kernels as K
 ID = "C06"
 META = {
     "bounds": "Kani (bit-precise, real fpdec_core::str_to_dec incl. its unsafe block, literal level: coefficient and exponent): every valid-UTF-8 byte string of "
-              "length <= 5 (quick) / <= 8 (thorough), every ASCII string of length 9..12 and exponent shapes of length 13..16 (thorough; harnesses that do not finish within "
-              "their cap end the check inconclusive), against an independent reference recogniser/evaluator; SWAR helpers for all u64; "
+              "length <= 5 (quick) / <= 8 (thorough) and exponent shapes of length 13, 14 and 16 (thorough); all-ASCII strings of length 9 and more "
+              "did not finish within 5000 s per harness and are outside both tiers, against an independent reference recogniser/evaluator; SWAR helpers for all u64; "
               "mir2smt: Decimal::from_str's exponent folding for every (coefficient, exponent) pair. "
               "mir2smt (slice model, digits symbolic, structure enumerated): canonical shapes [-]a digits[.b digits] with a 1..=39, b 0..=18; mantissas of 30..=41 "
               "digits at every dot position with leading zeros; over-long mantissas of 42..=48 (quick) / 42..=80 (thorough) digits; mantissas with exponents "
@@ -17,8 +17,9 @@ META = {
                     "contracts chunk_contains_8_digits / chunk_to_u64 (obligation: the two Kani SWAR harnesses of this check)", "CBMC/Kani semantics for the harnesses"],
 }
 KANI_QUICK = ["chunk_contains_8_digits_all", "chunk_to_u64_all"] + ["all_strings_len%d" % n for n in range(0, 6)]
-KANI_THOROUGH = KANI_QUICK + ["all_strings_len6", "all_strings_len7", "all_strings_len8", "ascii_strings_len9", "ascii_strings_len10", "ascii_strings_len11",
-                              "ascii_strings_len12", "exponent_strings_len13", "exponent_strings_len14", "exponent_strings_len16"]
+# measured (CBMC 6.11, cadical, one core each): len6 126 s, len7 358 s, len8 975 s, exponent 13 / 14 / 16: 212 / 233 / 1508 s.  The all-ASCII harnesses of
+# length 9 and 10 did not finish within 8000 s / 5000 s and are therefore not part of any tier (they stay in the harness crate for manual runs).
+KANI_THOROUGH = KANI_QUICK + ["all_strings_len6", "all_strings_len7", "all_strings_len8", "exponent_strings_len13", "exponent_strings_len14", "exponent_strings_len16"]
 EXPS = ["", "e0", "e5", "E-3", "e+12", "e-18", "e-19", "e38", "e39", "e-40", "E40", "e005", "e-0018"]
 
 
@@ -145,7 +146,7 @@ def run_case(ctx, case):
         from vfw import kani, build
         build.ENV["RUSTFLAGS"] = "--cfg fpdec_verif"
         h = case["harness"]
-        r = kani.run_harness(h, timeout_s=3300 if ctx.tier == "thorough" else 1500, playback=True, mem_gb=20)
+        r = kani.run_harness(h, timeout_s=7200 if ctx.tier == "thorough" else 1500, playback=True, mem_gb=20)
         res.d["vcs"] += 1
         res.d["distinct"].append(case["id"])
         res.sample({"kani": h, "status": r["status"], "time_s": r["time_s"], "covers": r["covers"], "sat_vars": r.get("sat_vars"), "sat_clauses": r.get("sat_clauses")})
